@@ -100,6 +100,11 @@ pub fn main(args: &[String]) {
             let rb = tb.join().unwrap_or_else(|_| "panic".into());
             println!("held={} b_early={} a={} b={}", held, b_returned_while_held, ra, rb);
         }
+        // one <tid> <action> : a single call, alone in the process (sequential reference)
+        "one" => {
+            let tid: usize = args[1].parse().unwrap();
+            println!("{}", action(&args[2], tid));
+        }
         // race <n> <action>... : n threads make their first calls simultaneously
         "race" => {
             let n: usize = args[1].parse().unwrap();
